@@ -14,11 +14,6 @@ theorem upd_cell_word (f : Nat → Cell) (j i : Nat) (c : Cell) :
     (upd f j c i).word = if i = j then c.word else (f i).word := by
   simp only [upd]; split <;> simp_all
 
-theorem cellsAfter_word (s : State) (c : Ctx) (i : Nat) : (cellsAfter s c i).word = (s.cells i).word := by
-  cases c <;> simp only [cellsAfter]
-  rename_i j
-  simp only [upd]; split <;> simp_all
-
 set_option maxHeartbeats 16000000 in
 theorem invB_step_6 {w s l s'} (hwf : w.WF) (ha : InvA w s) (hb : InvB w s) (hc : InvC w s) (hs : Step s l s')
     (hl : match l with | .msub | .msuspend | .tstore | .resume _ _ => True | _ => False) : InvB w s' := by
@@ -75,7 +70,7 @@ theorem invB_step_6 {w s l s'} (hwf : w.WF) (ha : InvA w s) (hb : InvB w s) (hc 
       have hno := no_cbs_of_decided hb (by rw [h]; rfl)
       simp only [doResume]
       cases hb
-      constructor <;> (try simp only [State.word, cellsAfter_word] at *) <;>
+      constructor <;> (try simp only [State.word] at *) <;>
         grind [inOp, decided, regPos, freshPc, afterRegPc]
   | _ => simp at hl
 
